@@ -14,6 +14,8 @@ class PatchList:
     def __init__(self) -> None:
         self.patches: OrderedDict[str, Patch] = OrderedDict()
         self.default: Dict[str, str] = {}
+        # type and settings changed by the user; kept when patches are re-collected
+        self.modified: Dict[str, dict] = {}
         self.merged: List[List[str]] = []  # data for the mergePatchPairs entry
 
     def add(self, vertices: List[Vertex], operation: Operation) -> None:
@@ -24,7 +26,13 @@ class PatchList:
     def get(self, name: str) -> Patch:
         """Fetches an existing Patch or creates a new one"""
         if name not in self.patches:
-            self.patches[name] = Patch(name)
+            patch = Patch(name)
+
+            if name in self.modified:
+                patch.kind = self.modified[name]["kind"]
+                patch.settings = self.modified[name]["settings"]
+
+            self.patches[name] = patch
 
         return self.patches[name]
 
@@ -43,6 +51,8 @@ class PatchList:
 
         if settings is not None:
             patch.settings = settings
+
+        self.modified[name] = {"kind": patch.kind, "settings": patch.settings}
 
     def merge(self, master: str, slave: str) -> None:
         """Adds an entry in mergePatchPairs list in blockMeshDict"""
